@@ -38,7 +38,7 @@ ASSUMPTIONS = ["mapping key order is not data; sequence order is data except whe
 REACH = [("yamlpath/differ/differ.py", "_diff_between,_diff_dicts,_diff_lists,_diff_sets,_diff_scalars,_diff_arrays_of_scalars,_diff_arrays_of_hashes,_diff_synced_lists,synchronize_lists_by_value,synchronize_lods_by_key,_purge_document,_add_everything", "Differ._diff_* / synchronize_*"),
          ("yamlpath/differ/differconfig.py", "array_diff_mode,aoh_diff_mode,aoh_diff_key", "DifferConfig modes")]
 SIZES = {"quick": 150000, "thorough": 3000000}
-REQUIRED_COUNTERS = ["truth_checked", "iff_checked", "conservation_checked", "reflexive_checked", "reused_differ_cases",
+REQUIRED_COUNTERS = ["reordered_records_cases", "truth_checked", "iff_checked", "conservation_checked", "reflexive_checked", "reused_differ_cases",
                      "pairs_with_anchored_scalars", "pairs_with_aliased_containers"]
 ARR = ["position", "value"]
 AOH = ["position", "dpos", "value", "key", "deep"]
@@ -545,6 +545,8 @@ def run_shard(ctx):
     want = SIZES[ctx.tier] // ctx.nshards
     n = 0
     while ctx.evaluations < want:
+        if rng.random() < 0.03:
+            reordered_records_case(ctx, rng)
         t = gen_tree(rng, 0, rng.choice(["map", "map", "seq", "aoh"]))
         x = rng.random()
         if x < 0.2:
@@ -572,6 +574,39 @@ def run_shard(ctx):
         n += 1
         if n <= 2:
             ctx.sample({"lhs": ltext, "rhs": rtext})
+
+
+def reordered_records_case(ctx, rng):
+    """The same records in another order, each record's keys written in another order too (key order is not data), with
+    values repeated across records in the non-identity fields: under the key-synchronised modes the documents do not differ."""
+    n = rng.randrange(2, 6)
+    ids = rng.sample(range(1, 9), n)
+    recs = []
+    for i in ids:
+        fields = [("id", str(i)), ("name", rng.choice(["a", "b", "a"])), ("v", rng.choice(["1", "2", "1"]))]
+        if rng.random() < 0.4:
+            fields.append(("w", rng.choice(["[1, 2]", "{p: 1}", "null"])))
+        recs.append(fields)
+
+    def text(rs, shuffle_keys):
+        out = []
+        for j, fields in enumerate(rs):
+            f = list(fields)
+            if shuffle_keys and j > 0:
+                rng.shuffle(f)            # (the first record keeps `id` first: the identity key is inferred from it)
+            out.append("{%s}" % ", ".join("%s: %s" % kv for kv in f))
+        return "[%s]" % ", ".join(out)
+    ltext = text(recs, False)
+    r2 = list(recs)
+    rng.shuffle(r2)
+    first = r2[0]
+    rtext = text(r2, True)
+    wrap = rng.random() < 0.5
+    if wrap:
+        ltext, rtext = "{recs: %s, o: 1}" % ltext, "{recs: %s, o: 1}" % rtext
+    ctx.count("reordered_records_cases")
+    for aoh in ("key", "deep"):
+        check_pair(ctx, ltext, rtext, rng.choice(ARR), aoh)
 
 
 def _all_lists_hashes(t):
